@@ -330,7 +330,10 @@ func init() {
 				}})
 			// the same bounds through the factory (not only the parser)
 			sp = append(sp, h.Space{Name: "ascii-variable-factory-bounds", Count: product(R+2, R+2),
-				Describe: func(i uint64) interface{} { d := unrank(i, R+2, R+2); return fmt.Sprintf("NewASCIINodeVariable(v, %d, %d)", d[0]-1, d[1]-2) },
+				Describe: func(i uint64) interface{} {
+					d := unrank(i, R+2, R+2)
+					return fmt.Sprintf("NewASCIINodeVariable(v, %d, %d)", d[0]-1, d[1]-2)
+				},
 				Run: func(c *h.Ctx, i uint64) {
 					d := unrank(i, R+2, R+2)
 					min, max := d[0]-1, d[1]-2
